@@ -1,3 +1,4 @@
+import Grexv.Gen.GraphemeSites
 import Grexv.Lemmas.XStructR
 import Grexv.Lemmas.Trie
 import Grexv.Lemmas.TrieExact
@@ -383,5 +384,11 @@ example :
     (Dfa.minimizePartition (Dfa.trie [[.mk [[120]] [] 1 1, .mk [[99]] [] 1 1], [.mk [[121]] [] 1 1, .mk [[99]] [] 1 1],
       [.mk [[121]] [] 1 1, .mk [[99]] [] 2 2], [.mk [[120]] [] 1 1, .mk [[99]] [] 3 3], [.mk [[121]] [] 1 1, .mk [[99]] [] 3 3]])).map
       (fun p => (Dfa.classOf p 1 == Dfa.classOf p 3)) = some false := by decide +kernel
+
+/-- **the printing options of a grapheme are those of the configuration** (read off the source on every run): the code stores the
+three printing options — capturing groups, colour, verbose — in every `Grapheme` it creates; the model prints each grapheme with the
+options of the configuration.  Every creation site outside the test modules hands over the three options of one configuration in the
+constructor's order, and the constructors store them under their own names -/
+theorem grapheme_options_follow_config : Gen.graphemeOptionSites.all (fun r => r.2) = true := by decide
 
 end Grexv.Props.C16
